@@ -34,6 +34,7 @@ import PercevalModel.Lemmas.C06Cat
 import PercevalModel.Lemmas.C06Loss
 import PercevalModel.Lemmas.C06More
 import PercevalModel.Model.C06Proc
+import PercevalModel.Lemmas.C06Multi
 
 namespace PM.C06
 
@@ -689,6 +690,143 @@ theorem generate_photon_number_close {P : Params} (hP : P.WF) (thr : ℚ) {ns : 
   exact (generate_close_to_exact hP thr hne t _ (fun s => by split <;> norm_num)
     (fun s => by split <;> norm_num)).1
 
+
+/-! ### the direct sample generator as a function of its random draws (`Model/C06Samp.lean`) -/
+
+/-- What `generate_samples` does before any draw: a perfect source returns the input (no draw at all); no filter →
+`_generate_samples_no_filter`; a filter that cannot be met because nothing is ever transmitted → no sample;
+otherwise the event-table route (an empty table — filter above `2n` — makes `random.choices` raise). -/
+theorem sampler_route (P : Params) (n f : ℕ) :
+    (isPerfect P = true → sampRoute P n f = .perfect) ∧
+    (isPerfect P = false → f = 0 → sampRoute P n f = .noFilter) ∧
+    (sampRoute P n f = .events → isPerfect P = false ∧ f ≠ 0 ∧ P.beta * P.eta ≠ 0 ∧ table P n f ≠ []) := by
+  refine ⟨fun h => by simp [sampRoute, h], fun h hf => by simp [sampRoute, h, hf], fun h => ?_⟩
+  unfold sampRoute at h
+  split at h
+  · cases h
+  · next h1 =>
+    split at h
+    · cases h
+    · next h2 =>
+      split at h
+      · cases h
+      · next h3 =>
+        split at h
+        · cases h
+        · next h4 => exact ⟨by simpa using h1, h2, h3, by simpa [List.isEmpty_iff] using h4⟩
+
+/-- **The no-filter sampler draws from `generate_distribution`.**  `_generate_samples_no_filter` is a deterministic
+function of the indices drawn by its `bsd.sample` calls (`nfSample`); when these indices are independent with the
+ideal law of `random.choices` (index `i` with probability `wᵢ/Σw`, `nfDrawLaw`), the law of one sample (`nfLaw`) gives
+EVERY test function of the state the expectation the untrimmed product law of `generate_distribution` gives it — the
+two laws are the same (not only up to renaming of tags: the sampler allocates the same tags, in both branches:
+a new one-photon distribution per requested photon when partially distinguishable, one shared distribution
+otherwise), and `k` samples are `k` independent copies.  For a perfect source the sampler returns the input, as
+`generate_distribution` does (`perfect_source_id`). -/
+theorem sampler_no_filter_law {P : Params} (hP : P.WF) (hperf : isPerfect P = false) {ns : List ℕ}
+    (hne : ns ≠ []) (t : ℕ) :
+    (∀ g : State → ℚ, E g (nfLaw P ns t) = E g (generateAt P 0 ns t)) ∧
+    (∀ (g : State → ℚ) (k : ℕ), E (fun l => (l.map g).prod) (iid (nfLaw P ns t) k) =
+      E g (generateAt P 0 ns t) ^ k) ∧
+    mass (nfLaw P ns t) = 1 := by
+  have h := nfLaw_same hP hperf hne t
+  refine ⟨h, fun g k => by rw [E_iid_prod, h], ?_⟩
+  rw [mass_eq_E, h, ← mass_eq_E]
+  exact (dist_tensor hP (fun _ _ => 1) hne t).2
+
+/-- **The event-table route draws from `generate_distribution` conditioned on the photon filter** — proved for the
+photons a sample carries, NOT for their arrangement over the modes.  `_events_to_samples` is a deterministic function
+of the event index, of the booleans of `_generate_distinguishability` and of the permutation `random.shuffle` effects
+(`fSample`).  For EVERY law `σ` of that permutation (supported on permutations; in particular the uniform one,
+`shuffleLaw`), with the event index and the booleans independent and ideal:
+* every sample carries exactly the `i + j + 2k` photons of its event — and every event of a filtered table has at
+  least `f` of them (`prob_table_filtered_eq_counts`), so the filter is met by construction — and no two of its
+  photons carry the same non-common tag (whatever the booleans, the permutation, the tag counter);
+* for all weights `a`, `b` of the two tag classes the class generating function of one sample is the one of
+  `generate_distribution` conditioned on `≥ f` photons, hence, probability by probability, the joint law of (photons
+  with the common tag, photons with a fresh tag) — in particular of the photon number — is that conditional law.
+Full statement wanted (NOT proved): the law of the sample on states up to renaming of fresh tags, i.e. the joint law
+of the per-mode pairs (common, fresh), equals the conditional law.  Missing: that a uniformly shuffled list with
+multinomial category counts is a sequence of independent categorical draws (the placement of the photons into the
+modes).  The placement is compared with the code exactly on recorded and on exhaustively forced draws by the
+correspondence, and the per-mode law is evaluated on the real code by exhaustive forcing for small inputs. -/
+theorem sampler_filtered_law_partial {P : Params} (hP : P.WF) {ns : List ℕ} (hne : ns ≠ []) (f t : ℕ)
+    (hf : f ≠ 0) (hperf : physPerf P ns.sum f ≠ 0) (σ : Dist (List ℕ))
+    (hσ : ∀ p ∈ σ, p.1.Perm (List.range ns.sum)) (hm : mass σ = 1) :
+    (∀ (i : ℕ) (bs : List Bool) (perm : List ℕ), perm.Perm (List.range ns.sum) →
+      photons (fSample P.dm ns t (eventOf P ns.sum f i) bs perm) = evPhotons (eventOf P ns.sum f i) ∧
+      (freshTags (fSample P.dm ns t (eventOf P ns.sum f i) bs perm).flatten).Nodup) ∧
+    (∀ a b : ℚ, E (fun s => a ^ nCommon s * b ^ nFresh s) (fLaw P ns f t σ) =
+      E (fun s => a ^ nCommon s * b ^ nFresh s) (condMin f (generateAt P 0 ns t))) ∧
+    (∀ u v, massP (fun s => decide (nCommon s = u ∧ nFresh s = v)) (fLaw P ns f t σ) =
+      massP (fun s => decide (nCommon s = u ∧ nFresh s = v)) (condMin f (generateAt P 0 ns t))) ∧
+    ((∀ p ∈ shuffleLaw ns.sum, p.1.Perm (List.range ns.sum)) ∧ mass (shuffleLaw ns.sum) = 1) :=
+  ⟨fun i bs perm hp => ⟨fSample_photons P.dm ns t _ bs perm (eventOf_le P ns.sum f i) hp,
+      (fSample_fresh P.dm ns t _ bs perm (eventOf_le P ns.sum f i) hp).choose_spec.1⟩,
+    fun a b => fLaw_gf hP hne f t hf hperf σ hσ hm a b,
+    fun u v => fLaw_class_pmf hP hne f t hf hperf σ hσ hm u v,
+    shuffleLaw_perm ns.sum, shuffleLaw_mass ns.sum⟩
+
+/-- The tags `_events_to_samples` attaches (`catTag` made concrete): for the event `(i, j, k)`, whatever the tag
+counter, the photons it creates have — averaged over ideal booleans — the class generating function
+`sigS^i · x^j · (sigS·x)^k` (`sigS = r·a + (1−r)·b` for a signal photon, `x = b` or `a` for the extra photon according
+to the model), and summed over the unfiltered event table this is the generating function `tagGF^n` of the physical
+description. -/
+theorem sampler_event_tags (P : Params) (a b : ℚ) (n : ℕ) (e : ℕ × ℕ × ℕ) (t : ℕ) :
+    E (fun bs => itemsGF a b (evItems P.dm n e bs t).1)
+      (prodLaw (List.replicate (e.1 + e.2.2) (boolLaw P))) =
+      sigS P a b ^ e.1 * xW P a b ^ e.2.1 * (sigS P a b * xW P a b) ^ e.2.2 ∧
+    E (fun e => sigS P a b ^ e.1 * xW P a b ^ e.2.1 * (sigS P a b * xW P a b) ^ e.2.2) (table P n 0) =
+      tagGF P a b ^ n :=
+  ⟨evItems_gf P a b n e t, E_table_evGF P a b n⟩
+
+/-! ### closed multinomial formula for `N` requested photons -/
+
+/-- **Closed form of the tag law.**  The probability that the generated mixture holds `u` photons with the common
+tag and `v` photons with a fresh tag is the explicit six-nomial sum: over all ways `k` to give each of the `N = Σ nᵢ`
+requested photons one of the six outcomes `(0,0), (1,0), (0,1), (2,0), (1,1), (0,2)` (`Σ_c k_c = N`) with
+`Σ_c k_c·c = (u, v)`, of `N! / ∏_c k_c! · ∏_c π_c^{k_c}`, `π_c` the six explicit one-photon probabilities
+(`sixP` = the values of `tag_class_one`).  It equals the `N`-fold convolution of `tag_pmf`. -/
+theorem tag_pmf_multinomial {P : Params} (hP : P.WF) {ns : List ℕ} (hne : ns ≠ []) (t u v : ℕ) :
+    massP (fun s => decide (nCommon s = u ∧ nFresh s = v)) (generateAt P 0 ns t) =
+      ∑ k ∈ (Finset.piAntidiag six ns.sum).filter (fun k => sixTotals k = (u, v)),
+        (Nat.multinomial six k : ℚ) * ∏ c ∈ six, sixP P c ^ k c ∧
+    massP (fun l => decide ((l.map Prod.fst).sum = u ∧ (l.map Prod.snd).sum = v)) (iid (physOne P) ns.sum) =
+      ∑ k ∈ (Finset.piAntidiag six ns.sum).filter (fun k => sixTotals k = (u, v)),
+        (Nat.multinomial six k : ℚ) * ∏ c ∈ six, sixP P c ^ k c ∧
+    (∀ c ∈ six, massP (fun x => decide (x = c)) (physOne P) = sixP P c) := by
+  have key : massP (fun s => decide (nCommon s = u ∧ nFresh s = v)) (generateAt P 0 ns t) =
+      ∑ k ∈ (Finset.piAntidiag six ns.sum).filter (fun k => sixTotals k = (u, v)),
+        (Nat.multinomial six k : ℚ) * ∏ c ∈ six, sixP P c ^ k c := by
+    have h := law_of_gf2 (fun _ => 1) nCommon nFresh (generateAt P 0 ns t) (fun _ => 1)
+      (fun x : ℕ × ℕ => x.1) (fun x => x.2) (sixRef P ns.sum)
+      (fun a b => by
+        simp only [one_mul]
+        rw [sixRef_gf]
+        exact E_generateAt_stateGF hP hne t a b) u v
+    rw [E_sixRef] at h
+    rw [Finset.sum_filter]
+    simp only [massP]
+    rw [E_congr (g' := fun s => if nCommon s = u ∧ nFresh s = v then (1 : ℚ) else 0) (fun s => by simp), h]
+    refine Finset.sum_congr rfl fun k _ => ?_
+    by_cases hk : sixTotals k = (u, v)
+    · have : (sixTotals k).1 = u ∧ (sixTotals k).2 = v := by rw [hk]; exact ⟨rfl, rfl⟩
+      simp [hk, this, sixWeight]
+    · have : ¬ ((sixTotals k).1 = u ∧ (sixTotals k).2 = v) := fun h' => hk (Prod.ext h'.1 h'.2)
+      simp [hk, this]
+  refine ⟨key, ?_, ?_⟩
+  · rw [← key]; exact ((tag_pmf hP hne t u v).1).symm
+  · intro c hc
+    obtain ⟨h0, h1, h2, h3, h4, h5⟩ := (tag_class_one hP t).2
+    simp only [six, Finset.mem_insert, Finset.mem_singleton] at hc
+    rcases hc with rfl | rfl | rfl | rfl | rfl | rfl
+    · exact h0
+    · exact h1
+    · exact h2
+    · exact h3
+    · exact h4
+    · exact h5
+
 /-! ### non-vacuity -/
 
 /-- every imperfection switched on, "distinguishable" model -/
@@ -782,5 +920,30 @@ example : max (0 : ℚ) minP * (lossCount [1, 1] : ℚ) < 1 := by
   have : lossCount [1, 1] = 40 := by decide
   rw [this]
   norm_num [minP]
+
+
+-- hypotheses of `sampler_no_filter_law`: a well-formed imperfect source and a non-empty input
+example : exP.WF ∧ isPerfect exP = false ∧ ([1, 0, 2] : List ℕ) ≠ [] :=
+  ⟨exP_WF, by simp [isPerfect, exP], by simp⟩
+-- ... and the draws really decide the sample: two different indices of the first `bsd.sample` call give two
+-- different states (nothing / one photon with the common tag)
+example : nfSample (nfDists exP [1] 0) [[0]] = [[]] ∧ nfSample (nfDists exP [1] 0) [[4]] = [[some 0]] := by
+  constructor <;>
+    norm_num [nfSample, nfDists, nfDistsPd, partDist, photonDists, onePhoton, onePhotonRaw, positive, pickKey,
+      modeOf, exP, p0, p11, p21, p22, p1, p2]
+-- hypotheses of `sampler_filtered_law_partial`: `exP_WF`, `[1, 1] ≠ []`, the filter `1 ≠ 0` keeps something
+-- (`physPerf exP 2 1 ≠ 0` above, `[1, 1].sum = 2`), and the uniform shuffle law is a law supported on permutations
+-- (last clause of the theorem itself); the route `.events` is taken there
+example : sampRoute exP 2 1 = .events := by
+  simp [sampRoute, isPerfect, exP, table, tableRaw, tableRawOf, pG2, pDuo, p21, p22, p2, List.range,
+    List.range.loop]
+-- the sample is a function of the permutation too: the two shuffles of one "signal alone" photon and one empty slot
+example : (fSample true [1, 1] 0 (1, 0, 0) [true] [0, 1]).map List.length = [1, 0] ∧
+    (fSample true [1, 1] 0 (1, 0, 0) [true] [1, 0]).map List.length = [0, 1] := by
+  constructor <;>
+    simp [fSample, distribute, mergeAll, applyPerm, evItems, sigPart, g2Part, duoPart, mergeTags]
+-- `tag_pmf_multinomial`: hypotheses as for `tag_pmf`; the six one-photon probabilities are the explicit ones
+example : sixP exP (1, 1) = exP.r * p22 exP ∧ sixP exP (2, 0) = 0 ∧ (1, 1) ∈ six := by
+  refine ⟨by simp [sixP, exP], by simp [sixP, exP], by decide⟩
 
 end PM.C06
